@@ -136,7 +136,9 @@ def strategy(tier):
         else:
             pool = list(mapping.get(module, {})) if module in mapping else []
             cands = st.sampled_from(pool) if pool else ident
-            raw = draw(st.lists(st.one_of(cands, cands, ident), min_size=1, max_size=4))
+            # names that are mapped, but only under a *different* v1 module, must stay where they are
+            foreign = sorted({n for m, d in mapping.items() if m != module for n in d} - set(pool))
+            raw = draw(st.lists(st.one_of(cands, cands, ident, st.sampled_from(foreign)), min_size=1, max_size=4))
             names, used = [], set()
             for i, n in enumerate(raw):
                 a = draw(asname)
